@@ -1,8 +1,143 @@
 import XmppModel.Prelude.Hex
-/-! Driver module for C12: `handle args` answers one protocol line (fields after the
-property id); `none` means the line is not understood (`!bad-op`). -/
+import XmppModel.Prelude.Xml
+import XmppModel.Model.Header
+import XmppModel.Model.StreamNeg
+import XmppModel.Model.Bind
+/-! Driver module for C12 (line protocol: see harness/c12/c12.go). -/
 namespace XmppModel.Driver.C12
+open XmppModel
 
-def handle (_args : List String) : Option String := none
+/-- hex text field, `-` = empty -/
+def txt (s : String) : Option String := if s == "-" then some "" else hexDecodeStr s
+
+def hx (s : String) : String := hexEncodeStr s
+
+def hxl (s : List Char) : String := hx (String.ofList s)
+
+/-! ### hdr -/
+
+def showStart (s : Header.Start) : String :=
+  let attrs := s.attrs.map fun a => s!"{hxl a.1.space}={hxl a.1.loc}={hxl a.2}"
+  let sorted := attrs.mergeSort (fun a b => decide (a ≤ b))
+  s!"{hxl s.name.space}|{hxl s.name.loc} {joinList sorted ";"}"
+
+def handleHdr (ws xmlns to src id lang emitted : String) : Option String := do
+  let ws ← parseBool ws
+  let xmlns ← txt xmlns; let to ← txt to; let src ← txt src; let id ← txt id; let lang ← txt lang
+  let em ← txt emitted
+  let args : Header.HdrArgs := ⟨ws, xmlns == "jabber:server", id.toList, to.toList, src.toList, lang.toList⟩
+  match Header.readHeader em.toList with
+  | none => pure "MALFORMED"
+  | some st =>
+    let faithful := Header.sameStart st (Header.expected args)
+    pure ((if faithful then "" else "UNFAITHFUL ") ++ showStart st)
+
+/-! ### neg -/
+
+def decHTok (s : String) : Option StreamNeg.HTok :=
+  if s == "X" then some .syntaxErr else (Xml.decTok s).map .tok
+
+def decHdr (field : String) : Option (List StreamNeg.HTok) :=
+  match field.splitOn "|" with
+  | [_, toks] => if toks == "-" then some [] else mapM? decHTok (toks.splitOn ";")
+  | _ => none
+
+def decJidTable (s : String) : Option (List (String × Option String)) :=
+  mapM? (fun e => match e.splitOn "=" with
+    | [raw, canon] => do
+      let r ← txt raw
+      if canon == "!" then pure (r, none) else do
+        let c ← txt canon
+        pure (r, some c)
+    | _ => none) (splitList s)
+
+def showInfo (i : StreamNeg.Info) : String :=
+  s!"{hx i.to},{hx i.src},{hx i.id},{hx s!"{i.version.1}.{i.version.2}"},{hx i.lang},{hx i.xmlns}"
+
+def showVerdict : Except StreamNeg.HErr (StreamNeg.Info × StreamNeg.OutHdr) → String
+  | .error e => "err:" ++ e.toString
+  | .ok (i, o) => s!"ok:{showInfo i}/{hx o.to},{hx o.src},{hx o.xmlns}"
+
+def handleNeg (role ws s2s loc orig jids : String) (hdrs : List String) : Option String := do
+  let recv ← if role == "r" then some true else if role == "i" then some false else none
+  let ws ← parseBool ws; let s2s ← parseBool s2s
+  let loc ← txt loc; let orig ← txt orig
+  let table ← decJidTable jids
+  let hs ← mapM? decHdr hdrs
+  -- `jid.Parse` restricted to the strings that occur; anything else is a protocol error
+  let known := hs.all fun h => h.all fun
+    | .tok (.start _ attrs) => attrs.all fun a =>
+        !(a.name == ⟨"", "to"⟩ || a.name == ⟨"", "from"⟩) || a.value == "" || (table.any (·.1 == a.value))
+    | _ => true
+  if !known then none else
+  let parseJid : String → Option String := fun raw =>
+    match table.find? (·.1 == raw) with
+    | some (_, c) => c
+    | none => none
+  let a0 : StreamNeg.Addrs := if recv then ⟨loc, orig⟩ else ⟨orig, loc⟩
+  let vs := StreamNeg.negRun recv ws s2s parseJid a0 hs
+  pure (" ".intercalate (vs.map showVerdict))
+
+/-! ### bind -/
+
+def jidField (canon : String) : Option Bind.JidField :=
+  if canon == "!" then some .invalid else (txt canon).map .valid
+
+def handleBindC (locl reply a b ajid bjid : String) : Option String := do
+  let locl ← txt locl; let a ← txt a
+  let _ ← txt b
+  let r : Bind.Reply ← match reply with
+    | "res" => (jidField ajid).map fun j => Bind.Reply.iq true "result" j none
+    | "resnojid" => some (.iq true "result" .absent none)
+    | "resnobind" => some (.iq true "result" .absent none)
+    | "wrongid" => (jidField ajid).map fun j => Bind.Reply.iq false "result" j none
+    | "noid" => (jidField ajid).map fun j => Bind.Reply.iq false "result" j none
+    | "err" => some (.iq true "error" .absent (some a))
+    | "errempty" => some (.iq true "error" .absent none)
+    | "type" => (jidField bjid).map fun j => Bind.Reply.iq true a j none
+    | "noniq" => some .otherElement
+    | "nsiq" => some .otherElement
+    | "space" => some .nonElement
+    | "eof" => some .eof
+    | "trunc" => some .eof   -- the document ends inside the reply: the decoder's read error
+    | _ => none
+  let res := Bind.client locl r
+  let req := match res.requested with
+    | none => "NONE"
+    | some s => if s.isEmpty then "EMPTY" else hx s
+  pure s!"{req} {res.err.toString} {hx res.addr} {showBool res.ready}"
+
+def handleBindS (s2s remote reqid reqres cb a cbjid : String) : Option String := do
+  let _ ← parseBool s2s
+  let remote ← txt remote; let reqid ← txt reqid; let a ← txt a
+  let reqres ← if reqres == "NONE" then some none else (txt reqres).map some
+  let c : Bind.Callback ← match cb with
+    | "nil" => some .default
+    | "jid" => if cbjid == "!" then some .failure else (txt cbjid).map .address
+    | "echo" => if cbjid == "!" then some .failure else (txt cbjid).map .address
+    | "serr" => some (.stanzaError a)
+    | "err" => some .failure
+    | _ => none
+  let r := Bind.server remote reqid reqres c
+  let args := match r.cbArgs with
+    | none => "-"
+    | some (j, res) => s!"{hx j}/{hx res}"
+  let head := match r.reply with
+    | none => "NOREPLY - - -"
+    | some (t, id, asg, cond) =>
+      let j := match asg with
+        | none => "-"
+        | some .random => "RND"
+        | some (.jid j) => hx j
+      s!"{t} {hx id} {j} {cond.getD "-"}"
+  pure s!"{head} {r.err.getD "nil"} {showBool r.ready} {args}"
+
+def handle (args : List String) : Option String :=
+  match args with
+  | ["hdr", ws, xmlns, to, src, id, lang, emitted] => handleHdr ws xmlns to src id lang emitted
+  | "neg" :: role :: ws :: s2s :: loc :: orig :: jids :: hdrs => handleNeg role ws s2s loc orig jids hdrs
+  | ["bindc", locl, reply, a, b, ajid, bjid] => handleBindC locl reply a b ajid bjid
+  | ["binds", s2s, remote, reqid, reqres, cb, a, cbjid] => handleBindS s2s remote reqid reqres cb a cbjid
+  | _ => none
 
 end XmppModel.Driver.C12
